@@ -250,6 +250,39 @@ def check_pair(rep, pr):
         rep.nontrivial.add('pair' + json.dumps(pr, sort_keys=True))
 
 
+def composite_state_and_initial_state(rep):
+    """An engine built from a composite that carries a state, with an initial
+    state given to the engine as well: every variable either of them names holds
+    that value, the others their defaults."""
+    class V(Process):
+        def ports_schema(self):
+            return {'p': {'a': {'_default': 1}, 'b': {'_default': 2}, 'c': {'_default': 3}}}
+
+        def next_update(self, timestep, states):
+            return {}
+    for cstate, istate, want in (
+            ({'s': {'a': 10}}, {'s': {'b': 20}}, {'a': 10, 'b': 20, 'c': 3}),
+            ({'s': {'a': 10}}, {}, {'a': 10, 'b': 2, 'c': 3}),
+            ({}, {'s': {'b': 20}}, {'a': 1, 'b': 20, 'c': 3})):
+        rep.evaluations += 1
+        sig = {'kind': 'composite-state+initial-state', 'composite': json.dumps(cstate),
+               'initial': json.dumps(istate)}
+        try:
+            comp = Composite({'processes': {'v': V()}, 'topology': {'v': {'p': ('s',)}},
+                              'state': copy.deepcopy(cstate)})
+            eng = Engine(composite=comp, initial_state=copy.deepcopy(istate),
+                         display_info=False, emitter='null')
+            got = eng.state.get_value()['s']
+        except Exception as e:
+            rep.violation(sig, 'C15 Engine(composite with state %r, initial_state=%r) raised %r'
+                          % (cstate, istate, e), {})
+            continue
+        if got != want:
+            rep.violation(sig, 'C15 Engine(composite=<state %r>, initial_state=%r): the store s '
+                          'holds %r, expected %r' % (cstate, istate, got, want), {})
+    rep.nontrivial.add('composite-state+initial-state')
+
+
 def run(rep, tier, scratch, only=None):
     consts = {'MaxPorts': 1 if tier == 'quick' else 2, 'Locs2': 'TRUE'}
     t = table.run_table(rep, 'InitState', 'InitState_' + tier,
@@ -300,6 +333,9 @@ def run(rep, tier, scratch, only=None):
             len(two[::step]), len(two))
     for pr in t['pairs']:
         check_pair(rep, pr)
+    if not only:
+        rep.guard(composite_state_and_initial_state, rep,
+                  what='composite state together with an engine initial state')
     rep.traces = n + len(t['pairs'])
     rep.add_sample({'case': cases[len(cases) // 2]['ports'],
                     'builds': cases[len(cases) // 2]['builds'][:2]})
